@@ -4,6 +4,7 @@ package verifhook
 
 import (
 	"github.com/IBM/sarama"
+	"github.com/linkedin/go-zk"
 
 	"github.com/linkedin/Burrow/core/internal/consumer"
 	"github.com/linkedin/Burrow/core/protocol"
@@ -24,3 +25,17 @@ func (c *KafkaClient) ProcessMessage(msg *sarama.ConsumerMessage) { c.m.VerifPro
 
 // Accept is acceptConsumerGroup.
 func (c *KafkaClient) Accept(group string) bool { return c.m.VerifAcceptConsumerGroup(group) }
+
+// KafkaZkClient is a handle on a real consumer.KafkaZkClient module (the Zookeeper offsets reader).
+type KafkaZkClient struct {
+	m *consumer.KafkaZkClient
+}
+
+// NewKafkaZkClient configures the module from the viper settings under configRoot (real Configure) and makes its Start
+// use the given Zookeeper client and session-event channel.
+func NewKafkaZkClient(app *protocol.ApplicationContext, name, configRoot string, zkc protocol.ZookeeperClient, events <-chan zk.Event) *KafkaZkClient {
+	return &KafkaZkClient{m: consumer.VerifNewKafkaZkClient(app, name, configRoot, zkc, events)}
+}
+
+// Start is the module's Start.
+func (c *KafkaZkClient) Start() error { return c.m.Start() }
